@@ -92,6 +92,26 @@ Proof.
 Qed.
 Print Assumptions C19_encode_writes.
 
+(* value semantics: in a batch of encodings (any order, results kept by the caller until the
+   whole batch is done) the i-th result is the encoding of the i-th header, independent of the
+   other members of the batch; a retained accepted encoding still decodes to its own header and
+   equals what writeHeader wrote for it.  Likewise for decoding. *)
+Theorem C19_batch_encode_pointwise : forall hs i h, nth_error hs i = Some h ->
+  nth_error (encode_batch hs) i = Some (hdr_encode h, write_header h).
+Proof. exact encode_batch_nth. Qed.
+Print Assumptions C19_batch_encode_pointwise.
+
+Theorem C19_batch_encode_retained_roundtrip : forall hs i h b w, nth_error hs i = Some h ->
+  wf_hdr h -> h_ver h < 8 ->
+  nth_error (encode_batch hs) i = Some (Some b, w) -> hdr_decode b = HOk h /\ w = b.
+Proof. exact encode_batch_roundtrip. Qed.
+Print Assumptions C19_batch_encode_retained_roundtrip.
+
+Theorem C19_batch_decode_pointwise : forall bufs i b, nth_error bufs i = Some b ->
+  nth_error (decode_batch bufs) i = Some (hdr_decode b, read_header b).
+Proof. exact decode_batch_nth. Qed.
+Print Assumptions C19_batch_decode_pointwise.
+
 (* ---------------------------------------------------------------- Part 2: tables (generic) *)
 
 (* every message type the library can instantiate reports that same type code *)
